@@ -62,6 +62,8 @@ def cases(tier):
         if n >= 2:
             add('bit length halved', tamper_statement={'op': 'bit_length', 'n': n // 2})
         add('value generator replaced', tamper_statement={'op': 'h_base'})
+        add('value generator replaced in a clone of the generators the prover used', tamper_statement={'op': 'h_base', 'from_used': True})
+        add('blinding generator %d replaced in a clone of the generators the prover used' % (x - 1), tamper_statement={'op': 'g_base', 'k': x - 1, 'from_used': True})
         add('a blinding generator appended', tamper_statement={'op': 'g_append'})
         if x > 1:
             add('the last blinding generator removed', tamper_statement={'op': 'g_drop_last'})
